@@ -12,9 +12,14 @@ FIRST = {  # outcome of the check as it was when the change arrived (exit 1 = ca
  # round 2 (one change per property, directories .../3)
  "C01/3": "yes", "C02/3": "no", "C03/3": "yes", "C04/3": "n/a (op LongWait added after reading the change's description, before the first run; the histories before it never kept a transaction pending for > 50 blocks)",
  "C05/3": "yes", "C06/3": "yes", "C07/3": "yes", "C08/3": "yes", "C09/3": "yes", "C10/3": "yes", "C11/3": "yes", "C12/3": "yes",
+ # round 3 (prompt asked for less-travelled paths; duplicates of earlier changes were dropped): directories .../4
+ "C02/4": "yes", "C04/4": "no", "C06/4": "yes", "C08/4": "yes", "C10/4": "yes", "C15/4": "yes", "C17/4": "no", "C20/4": "no",
  "C13/3": "yes", "C14/3": "yes", "C15/3": "yes", "C16/3": "yes", "C17/3": "yes", "C18/3": "yes", "C19/3": "yes", "C20/3": "yes",
 }
 STRENGTH = {
+ "C04/4": "histories may start with a pending send in each of two accounts whose log ids coincide (reserved / finalized / one of them cancelled); the scenario is also kept as regress/C04/seed4-*.json -> c04:*:ledger",
+ "C17/4": "expiry part: new role self-send inside one account (sent and received entry share the slate id) and recipient that cancels and re-receives the same slate -> c17:expire:not-cancelled",
+ "C20/4": "needs 3 preemptions (cancel_tx suspended before its last lock while the refresh re-reads the entry): beyond the enumerated bounds (1 quick / 2 thorough); 160 constructed schedules of that shape are replayed as regression inputs (regress/C20/cancel-suspended-*.json) -> c20:kernel-confirm-overwrites-cancel",
  "C02/3": "same code change as C02/1, but after the late-lock repair in /repo it only shows when the refusal comes from the payment-proof check (after the lock): late-locked sends may now ask for a proof, new mutation PaymentProofSigFlip, then the genuine reply -> c02:retry:sent-entries",
  "C04/3": "new op LongWait (mempool mined, 51-56 empty blocks, all wallets refresh) -> c04:*:ledger",
  "C02/1": "C02 now re-delivers the genuine reply after a refused altered one (late-locked sends kept small so a second selection is possible) and requires exactly one TxSent entry + all facts",
